@@ -572,4 +572,28 @@ theorem insertAll_spec (m : M V) (hi : Inv m) (start : Nat) (values : List (Opti
         · have hne : j ≠ start := by omega
           simp [hj, hs, hne]
 
+/-- writing through `get_mut` is an `insert` of a key that is present -/
+theorem getMut_eq_insert (m : M V) (hi : Inv m) (id : Nat) (v old : V) (h : slot m id = some old) :
+    getMut m id v = ((insert m id v).1, some old) := by
+  have hin : id / m.chunkSize < m.chunks.length := by
+    apply Nat.lt_of_not_ge
+    intro hge
+    rw [slot_none_of_out m id hge] at h; cases h
+  have hle : id ≤ m.max := hi.keys_le id old h
+  unfold getMut
+  rw [if_neg (Nat.not_le.mpr hin), h]
+  rw [insert_eq]
+  simp only [h, Option.isNone_some, Bool.false_eq_true, if_false]
+  have hmax : Nat.max m.max id = m.max := Nat.max_eq_left hle
+  have hch : insChunks m id = m.chunks := by
+    unfold insChunks
+    rw [if_neg (Nat.not_le.mpr hin)]
+  rw [hmax, hch]
+
+theorem getMut_absent (m : M V) (id : Nat) (v : V) (h : slot m id = none) : getMut m id v = (m, none) := by
+  unfold getMut
+  split
+  · rfl
+  · rw [h]
+
 end Resolvo.Mapping
